@@ -327,13 +327,13 @@ func c13(c *core.Ctx) {
 			core.Instrs(getPeer, func(in ssa.Instruction) {
 				if st, ok := in.(*ssa.Store); ok {
 					if _, f, isF := core.FieldOf(st.Addr); isF && f == "AuthInfo" {
-						if core.GuardedBy(st, func(f core.Fact) bool { return f.Op == token.NEQ && core.IsNilConst(f.Y) && f.X == ssa.Value(getPeer.Params[1]) }) {
+						if core.GuardedExactlyBy(st, func(f core.Fact) bool { return f.Op == token.NEQ && core.IsNilConst(f.Y) && f.X == ssa.Value(getPeer.Params[1]) }) {
 							okAuth = true
 						}
 					}
 				}
 			})
-			c.Check(okAuth, core.FuncName(getPeer)+":authinfo", getPeer.Pos(), "AuthInfo set on the tls != nil edge", "AuthInfo is not set from the TLS state on the tls != nil edge")
+			c.Check(okAuth, core.FuncName(getPeer)+":authinfo", getPeer.Pos(), "AuthInfo set on the tls != nil edge", "AuthInfo is not set from the TLS state on exactly the tls != nil edge (missing, or subject to a further condition)")
 		}
 		if peerFromReq == nil {
 			c.Missing("server peer constructor func(*http.Request) *peer.Peer")
@@ -352,7 +352,7 @@ func c13(c *core.Ctx) {
 				if f == "Addr" && core.OriginIs(st.Val, func(o ssa.Value) bool { _, ff, ok := core.FieldOf(o); return ok && ff == "RemoteAddr" }) {
 					okAddr = true
 				}
-				if f == "AuthInfo" && core.GuardedBy(st, func(fc core.Fact) bool {
+				if f == "AuthInfo" && core.GuardedExactlyBy(st, func(fc core.Fact) bool {
 					if fc.Op != token.NEQ || !core.IsNilConst(fc.Y) {
 						return false
 					}
@@ -363,7 +363,7 @@ func c13(c *core.Ctx) {
 				}
 			})
 			c.Check(okAddr, key+":addr", peerFromReq.Pos(), "Addr from r.RemoteAddr", "peer address is not taken from r.RemoteAddr")
-			c.Check(okAuth, key+":authinfo", peerFromReq.Pos(), "AuthInfo on the r.TLS != nil edge", "AuthInfo is not set from r.TLS on the r.TLS != nil edge")
+			c.Check(okAuth, key+":authinfo", peerFromReq.Pos(), "AuthInfo on the r.TLS != nil edge", "AuthInfo is not set from r.TLS on exactly the r.TLS != nil edge (missing, or subject to a further condition): TLS connections would be reported without auth info")
 			for _, hc := range httpHandlerClosures(p) {
 				k := core.FuncName(hc.Fn) + ":peer-attached"
 				ok := false
